@@ -4,7 +4,7 @@ use crate::framework::{Outcome, Report, Tier};
 use crate::prng::Prng;
 use crate::reagg::{compare_flow, RefFlow};
 use crate::scen::{self, all_cells, ms, random_topology, world_cfg, Cell, TopoOpts};
-use crate::sim::{run_single, TraceCfg};
+use crate::sim::TraceCfg;
 use crate::truth::analyse;
 use crate::world::PktClass;
 use serde_json::json;
@@ -96,7 +96,17 @@ pub fn run_scenario(seed: u64, i: usize, cells: &[Cell], tier: Tier) -> Outcome 
     let replay = replay_of("C01", seed, i, &sc.tcfg, &sc.wcfg.topo);
     let site = sc.cell.name();
     let stratum = if sc.cell.is_unpriv_multipath() { "builder-only" } else { "cli+builder" };
-    let res = crate::framework::guarded(|| run_single(sc.wcfg.clone(), &sc.tcfg, true));
+    let res = crate::framework::guarded(|| {
+        let world = crate::world::World::new(sc.wcfg.clone());
+        // dishonest worlds: an echo reply naming the sequence of a UDP / TCP probe is not a
+        // response to it ("none is invented")
+        if !sc.wcfg.adversary.forgeries.is_empty() {
+            crate::forge::install_echo_adversary(&world, &sc.tcfg, 12);
+        }
+        let tracer = sc.tcfg.builder().build().map_err(|e| format!("build: {e}"))?;
+        let r = crate::sim::run_tracer(&world, 0, &tracer, &crate::sim::RunOpts { snapshots: true });
+        Ok::<_, String>((world, r))
+    });
     let (world, run) = match res {
         Err(p) if p.in_repo() => {
             o.violate("no_panic", format!("{site}|{}", p.site()), format!("panic at {}:{}: {}", p.file, p.line, p.message), replay);
